@@ -1,6 +1,7 @@
 ----------------------------------- MODULE MC_Cli ------------------------------------
 EXTENDS Cli
-S(i, c, f, o) == [input |-> i, channel |-> c, format |-> f, own |-> o]
+S(i, c, f, o) == [input |-> i, channel |-> c, format |-> f, own |-> o, out |-> "stdout"]
+SO(i, c, f, o, w) == [input |-> i, channel |-> c, format |-> f, own |-> o, out |-> w]
 \* every situation of one invocation (C19)
 Owns == {"none", "json", "csv", "both", "jsonfirst"}
 Raw == {S(i, c, f, o) : i \in {"missing", "directory", "empty", "blank", "syntax", "model", "ok"},
@@ -9,7 +10,9 @@ Raw == {S(i, c, f, o) : i \in {"missing", "directory", "empty", "blank", "syntax
 \* implementation (it is a parse failure): only the stream case is claimed
 AllSits == {s \in Raw : /\ ~(s.input \in {"missing", "directory"} /\ s.channel \in {"dash", "stdin"})
                         /\ ~(s.input = "blank" /\ s.channel = "path")}
+           \cup {SO(i, c, f, o, w) : i \in {"ok", "syntax"}, c \in {"path", "stdin"}, f \in {"json", "csv"}, o \in {"none", "both"},
+                                      w \in {"newfile", "exists", "force"}}
 \* three concurrent processes (C20): a representative mix incl. failing ones
 ConcSits == {S("ok", "path", "json", "json"), S("ok", "stdin", "json", "none"), S("syntax", "path", "csv", "both"),
-             S("empty", "stdin", "json", "none"), S("ok", "path", "csv", "csv")}
+             S("empty", "stdin", "json", "none"), SO("ok", "path", "csv", "csv", "exists")}
 =======================================================================================
